@@ -68,6 +68,7 @@ def impl_env(mode="jit"):
     e["PYTHONHASHSEED"] = "0"
     e["PYTHONDONTWRITEBYTECODE"] = "1"
     e[GUARD] = "1"
+    e["VERIF_TREE"] = REPO
     e["NUMBA_CACHE_DIR"] = numba_cache_dir()
     e["OMP_NUM_THREADS"] = "1"
     e["NUMBA_NUM_THREADS"] = "1"
